@@ -91,6 +91,73 @@ Definition ns_clear (s : nset) : nset := ds_clear s.
 Definition ns_remax (s : nset) (m : Z) : nset := ds_remax 0 s m.
 End NameSet.
 
+(* ------------------------------------------------------------------ NameSet: the string memory *)
+(* All names are stored, zero-terminated, in one char array mem of memMax() bytes of which memSize() are in use; the
+   DataSet element of a name is its offset.  Names are unique, so the model keeps the offset per name identifier.
+   memPack() rewrites the names in number order without gaps, memRemax() reallocates, add() appends (after packing /
+   growing when the name does not fit).  The characters of the name with identifier id (1..12 characters over a, b, c;
+   the harness uses the same strings): *)
+Definition nstr (id : Z) : list Z := repeat (97 + id mod 3) (Z.to_nat (id + 1)).
+
+Record nmem := mkNM { nm_mem : list Z; nm_used : Z; nm_max : Z; nm_off : list (Z * Z) }.
+
+(* the C string starting at an offset *)
+Fixpoint cstr_of (l : list Z) : list Z :=
+  match l with
+  | [] => []
+  | c :: r => if c =? 0 then [] else c :: cstr_of r
+  end.
+Definition cstr (mem : list Z) (off : Z) : list Z := cstr_of (skipn (Z.to_nat off) mem).
+
+Fixpoint nm_lookup (offs : list (Z * Z)) (id : Z) : option Z :=
+  match offs with
+  | [] => None
+  | (i, o) :: r => if i =? id then Some o else nm_lookup r id
+  end.
+(* the string read back for a name that is in the set *)
+Definition nm_name (st : nmem) (id : Z) : list Z :=
+  match nm_lookup (nm_off st) id with Some o => cstr (nm_mem st) o | None => [] end.
+
+(* writing characters at an offset (the caller guarantees that they fit) *)
+Definition write_at (mem : list Z) (off : Z) (s : list Z) : list Z :=
+  firstn (Z.to_nat off) mem ++ s ++ skipn (Z.to_nat off + length s) mem.
+
+(* NameSet(max, mmax): memmax = mmax < 1 ? 8 * max + 1 : mmax *)
+Definition nm_init (setmax mmax : Z) : nmem :=
+  let m := if mmax <? 1 then 8 * setmax + 1 else mmax in mkNM (repeat 0 (Z.to_nat m)) 0 m [].
+
+(* memRemax(newmax) *)
+Definition nm_remax (st : nmem) (newmax : Z) : nmem :=
+  let m := if newmax <? nm_used st then nm_used st else newmax in
+  mkNM (resize 0 m (nm_mem st)) (nm_used st) m (nm_off st).
+
+(* memPack(): order = the names in number order; the names are copied one after the other into a temporary buffer of
+   memSize() bytes, which is then copied back *)
+Definition nm_pack_step (old : nmem) (acc : list Z * Z * list (Z * Z)) (id : Z) : list Z * Z * list (Z * Z) :=
+  let '(buf, last, offs) := acc in
+  let t := nm_name old id in
+  (write_at buf last (t ++ [0]), last + zlen t + 1, offs ++ [(id, last)]).
+Definition nm_pack (order : list Z) (st : nmem) : nmem :=
+  let '(buf, last, offs) := fold_left (nm_pack_step st) order (repeat 0 (Z.to_nat (nm_used st)), 0, []) in
+  mkNM (copy_prefix last buf (nm_mem st)) last (nm_max st) offs.
+
+(* the memory part of add(key, str) for a name that is not yet in the set *)
+Definition nm_add (order : list Z) (st : nmem) (id : Z) : nmem :=
+  let len := zlen (nstr id) in
+  let st1 :=
+    if nm_max st <=? nm_used st + len then
+      let p := nm_pack order st in
+      if nm_max p <=? nm_used p + len then nm_remax p (2 * nm_max p + 9 + len) else p
+    else st in
+  mkNM (write_at (nm_mem st1) (nm_used st1) (nstr id ++ [0])) (nm_used st1 + len + 1) (nm_max st1)
+       (nm_off st1 ++ [(id, nm_used st1)]).
+
+(* removals keep the memory and forget the offsets of the removed names; clear() *)
+Definition nm_keep (remaining : list Z) (st : nmem) : nmem :=
+  mkNM (nm_mem st) (nm_used st) (nm_max st)
+       (filter (fun e => existsb (Z.eqb (fst e)) remaining) (nm_off st)).
+Definition nm_clear (st : nmem) : nmem := mkNM (nm_mem st) 0 (nm_max st) [].
+
 (* ------------------------------------------------------------------ SVSet / LPRowSet / LPColSet *)
 (* ensurePSVec(n): "if(num() + n > max()) reMax(int(factor * max()) + 8 + n)" with factor 1.1 *)
 Definition svs_ensure {D} (d0 : D) (s : ds D) (n : Z) : ds D :=
